@@ -501,6 +501,57 @@ func runC16(c *eng.Ctx) {
 	guardedBy(r7, pkgVault, "GroupedVault", "collectors", "mtx")
 }
 
+
+// actionMembership decides the atom slices.Contains(L, op.Action) for the assumed action a: L is a constant list
+// (literal, local, package variable that is never written), or a local whose value at the node of the test - under
+// the same scenario - is one of several such lists that agree on a. ok is false when the atom is something else or
+// cannot be decided.
+func actionMembership(p *eng.Prog, g *eng.Graph, info *types.Info, body ast.Node, action *types.Var, a string, fc eng.Fact, scenario func(eng.Fact) bool, busy map[ast.Expr]bool) (member bool, ok bool) {
+	if fc.Y != nil {
+		return false, false
+	}
+	cl, isC := ast.Unparen(fc.X).(*ast.CallExpr)
+	if !isC || len(cl.Args) != 2 || !eng.IsPkgFunc(eng.CalleeOf(info, cl), "slices", "Contains") || !eng.IsField(info, cl.Args[1], action) {
+		return false, false
+	}
+	in := func(set []string) bool {
+		for _, x := range set {
+			if x == a {
+				return true
+			}
+		}
+		return false
+	}
+	if set, isSet := constStringSet(p, info, body, cl.Args[0]); isSet {
+		return in(set), true
+	}
+	if fc.At == nil || busy[cl.Args[0]] {
+		return false, false
+	}
+	busy[cl.Args[0]] = true
+	defer delete(busy, cl.Args[0])
+	vals, reachable, okVals := reachingValues(g, info, body, fc.At, cl.Args[0], scenario)
+	if !reachable || !okVals || len(vals) == 0 {
+		return false, false
+	}
+	first := true
+	for _, v := range vals {
+		if v == nil {
+			return false, false
+		}
+		set, isSet := constStringSet(p, info, body, v)
+		if !isSet {
+			return false, false
+		}
+		if m := in(set); first {
+			member, first = m, false
+		} else if m != member {
+			return false, false
+		}
+	}
+	return member, true
+}
+
 type actionField struct{ action, field string }
 
 // condPairs extracts (action constant, field) pairs from the facts that must hold to reach node n:
@@ -598,7 +649,12 @@ func runC16R9(c *eng.Ctx, r *eng.RuleCtx) {
 		if got, has := memo[pr]; has {
 			return got
 		}
-		assumed := func(fc eng.Fact) bool {
+		busy := map[ast.Expr]bool{}
+		var assumed func(fc eng.Fact) bool
+		assumed = func(fc eng.Fact) bool {
+			if m, known := actionMembership(p, vg, vinfo, v.Decl.Body, action, pr.action, fc, assumed, busy); known {
+				return m == fc.Pos
+			}
 			x, y, eq, ok := eng.EqAtom(fc)
 			if !ok {
 				return false
@@ -687,7 +743,14 @@ func runC16R9Actions(c *eng.Ctx, r *eng.RuleCtx) {
 	}
 	collect(v)
 	scenario := func(info *types.Info, a string, grp int, forApplier bool) func(eng.Fact) bool {
-		return func(fc eng.Fact) bool {
+		busy := map[ast.Expr]bool{}
+		var self func(fc eng.Fact) bool
+		self = func(fc eng.Fact) bool {
+			if !forApplier {
+				if m, known := actionMembership(p, vg, vinfo, v.Decl.Body, action, a, fc, self, busy); known {
+					return m == fc.Pos
+				}
+			}
 			x, y, eq, ok := eng.EqAtom(fc)
 			if !ok {
 				return false
@@ -717,6 +780,7 @@ func runC16R9Actions(c *eng.Ctx, r *eng.RuleCtx) {
 			}
 			return false
 		}
+		return self
 	}
 	isAppend := func(n *eng.GNode) bool {
 		as, ok := n.Node.(*ast.AssignStmt)
